@@ -35,7 +35,7 @@ func scenarioC01(r *Run) {
 		c01Siblings(r)
 		return
 	}
-	spec := genSpec(t, SpecOpts{MaxExtra: 40, MaxSigner: 6, BigOK: r.Thorough() && t.Bool(1, 8, "c01.big")})
+	spec := genSpec(t, SpecOpts{MaxExtra: 40, MaxSigner: 6, BigOK: bigOK(r, "c01.big")})
 	viaDir := t.Bool(1, 3, "c01.viadir")
 	ent := NewEntropy(uint64(t.U32("entropy.seed")))
 	if t.Bool(1, 5, "entropy.short") {
